@@ -5,7 +5,9 @@ For every case the real Solve() is run once on a fresh solver (the objective is 
 From the x history alone the Hoelder length delta_k = (x_r - x_l)^(1/N) of the interval subdivided by
 trial k (k >= 2; trial 1 only seeds the partition {[0,.5],[.5,1]}) is recomputed (same expression as the
 stored one => exact comparison with eps).  Clauses:
-  terminates               Solve returned, no runaway, no escaping exception, no internal-exception marker
+  terminates               Solve returned, no runaway, no escaping exception, no internal-exception marker (except the
+                           float collapse of an interval narrower than 1e-12, a legitimate end: stats['float_collapse_stops'];
+                           never-earlier / stop-flag are then not applicable, all other clauses are)
   evals-equal-reported     #global Calculate calls == Solution.numberOfGlobalTrials == #stored trials
   budget                   1 <= #evaluations <= itersLimit
   never-earlier            the run did not stop although no delta_k < eps yet and budget left
@@ -41,9 +43,10 @@ def check_case(case):
         sol = run.solve()
     except BaseException as e:                # noqa
         err = repr(e)
-    if err or run.runaway or run.printed_exception:
-        vs.append(oc.violation(PROP, case, "terminates", {"raised": err, "runaway": run.runaway,
-                                                          "printed_marker": run.printed_exception, "calls": run.calls}))
+    if run.trouble(err):
+        vs.append(oc.violation(PROP, case, "terminates", dict(run.trouble(err), calls=run.calls)))
+    col = run.collapsed          # legitimate end by float collapse: the stop clauses below do not apply to this run
+    info["float_collapse"] = bool(col)
     g = run.glog()
     T = len(g)
     info["trials"] = T
@@ -64,15 +67,17 @@ def check_case(case):
                                                            "eps": eps, "itersLimit": lim}))
     if T > lim:
         vs.append(oc.violation(PROP, case, "never-later", {"trials": T, "itersLimit": lim}))
-    if T < lim and (kacc is None or kacc > T):
+    if T < lim and (kacc is None or kacc > T) and not col:
         vs.append(oc.violation(PROP, case, "never-earlier", {"trials": T, "itersLimit": lim, "eps": eps,
                                                              "min_delta": min([d for d in deltas if d is not None], default=None)}))
     good = [d for d in deltas if d is not None]
     exp_acc = min(good) if good else math.inf
+    if col:                      # the interval taken last (and not subdivided) was already accounted for
+        exp_acc = min(exp_acc, oc.holder(col["xl"], col["xr"], n))
     acc = rep.solutionAccuracy
     if not (acc == exp_acc):
         vs.append(oc.violation(PROP, case, "accuracy-is-min-delta", {"reported": float(acc), "expected": exp_acc, "trials": T}))
-    if not run.stopped():
+    if not run.stopped() and not col:
         vs.append(oc.violation(PROP, case, "stop-flag", {"trials": T, "iterationsCount": run.solver.method.iterationsCount}))
     rep2 = run.solver.GetResults()
     if rep2.numberOfGlobalTrials != rep.numberOfGlobalTrials or len(run.glog()) != T:
@@ -100,7 +105,7 @@ def gen(r):
 
 
 def run(tier, r):
-    ncases = 1500 if tier == "quick" else 24000
+    ncases = 4000 if tier == "quick" else 60000
     vs, stats, samples, keys = [], {}, [], set()
     nontrivial = explored = 0
     for i in range(ncases):
@@ -110,6 +115,7 @@ def run(tier, r):
         vs += v
         oc.bump(stats, "dim%d" % case["n"])
         oc.bump(stats, "lim<=3", 1 if case["lim"] <= 3 else 0)
+        oc.bump(stats, "float_collapse_stops", 1 if info.get("float_collapse") else 0)
         oc.bump(stats, "eps>=1", 1 if case["eps"] >= 1 else 0)
         oc.bump(stats, "accuracy_stop", 1 if info.get("accuracy_stop") else 0)
         oc.bump(stats, "budget_stop", 1 if info.get("budget_stop") else 0)
